@@ -42,6 +42,11 @@ inline std::uint64_t script_raw(std::uint64_t stream, std::uint64_t pos)
                 return (block < c->lat_selector.size()) ? c->lat_selector[block] : 0;
             }
 
+            if (j >= c->lat_active)
+            {
+                return 1ULL << 63;   // spectator dimension: the mid point 1/2
+            }
+
             std::uint64_t digit = q % c->lat_points;
             for (std::uint64_t k = 0; k != j; ++k) digit /= c->lat_n;
             digit %= c->lat_n;
